@@ -10,8 +10,11 @@ def ob(mod, *names_says):
 P = {}
 
 P["C01"] = dict(
-    lean_targets=["JSight.Props.C01"],
-    obligations=ob("JSight.Props.C01",
+    lean_targets=["JSight.Props.C01", "JSight.Tie.Kinds"],
+    tgen=[{"cmd": ["tgen-kinds", "{LEAN}/JSight/Generated/KindMatrix.lean"]}],
+    obligations=ob("JSight.Tie.Kinds",
+        ("Gen.C01_kind_matrix", "kind-admissibility verdicts of the real Validate (executed on the current tree, 120 combinations) = the model's litOK"),
+        ("Gen.C01_kind_matrix_size", "the regenerated matrix is complete")) + ob("JSight.Props.C01",
         ("Props.C01.C01_validate_iff_shape", "validator event machine = shape spec, all schemas/documents of the fragment, unbounded depth/width"),
         ("Props.C01.C01_validate_iff_shape_param", "same for any scalar-rule semantics litOK"),
         ("Props.C01.C01_with_alternatives", "with alternatives (nullable containers = container | null)"),
@@ -23,8 +26,10 @@ P["C01"] = dict(
     technique="Lean 4 theorem (event machine = denotational shape, mutual structural recursion) + differential correspondence with Validate")
 
 P["C02"] = dict(
-    lean_targets=["JSight.Props.C02"],
-    obligations=ob("JSight.Props.C02",
+    lean_targets=["JSight.Props.C02", "JSight.Tie.Kinds"],
+    tgen=[{"cmd": ["tgen-kinds", "{LEAN}/JSight/Generated/KindMatrix.lean"]}],
+    obligations=ob("JSight.Tie.Kinds",
+        ("Gen.C01_kind_matrix", "kind-admissibility verdicts of the real Validate (executed on the current tree) = the model's litOK")) + ob("JSight.Props.C02",
         ("Props.C02.C02_accept_iff", "litOK = (null and nullable) or (kind admissible and all rules hold)"),
         ("Props.C02.C02_null_admitted", "null admitted by nullable:true whatever other rules"),
         ("Props.C02.C02_min_exact", "min compares exact decimal values (strict iff exclusive)"),
